@@ -178,6 +178,36 @@ func generate(prop, tier string, seed uint64, w *bufio.Writer) {
 		fmt.Fprintf(os.Stderr, "unknown property %s\n", prop)
 		os.Exit(2)
 	}
+	// report blocks of 64 KiB and more, for the properties that encode, re-encode or decode XR packets. The model takes
+	// 25 s to 2 min per such packet (its byte-list functions are quadratic at this size): the quick tier runs one
+	// (packet receipt times, the cheapest kind) for the two properties about XR framing and re-encoding, the thorough
+	// tier all four kinds for every property that handles XR packets.
+	kinds := 1
+	if tier == "thorough" {
+		kinds = 4
+	}
+	switch prop {
+	case "C15":
+		for k := 0; k < kinds; k++ {
+			e.emit("xr-huge-block", op1("rt", packetSx(genHugeXR(r, k))))
+		}
+	case "C09":
+		for k := 0; k < kinds; k++ {
+			e.emit("xr-huge-block", op1("redec", sb(hugeXRBytes(r, k))))
+		}
+	case "C02":
+		for k := 0; k < kinds && tier == "thorough"; k++ {
+			e.emit("xr-huge-block", op1("rt", packetSx(genHugeXR(r, k))))
+		}
+	case "C03", "C05", "C08", "C10":
+		for k := 0; k < 2 && tier == "thorough"; k++ {
+			e.emit("xr-huge-block", op1("enc", packetSx(genHugeXR(r, r.intn(4)))))
+		}
+	case "C04", "C01":
+		for k := 0; k < 2 && tier == "thorough"; k++ {
+			e.emit("xr-huge-block", opDec("ExtendedReport", hugeXRBytes(r, k)))
+		}
+	}
 	fmt.Fprintf(os.Stderr, "{\"generated\": %d, \"kinds\": {", e.n)
 	first := true
 	for k, v := range e.kinds {
